@@ -437,6 +437,10 @@ fn injection_cases() -> Vec<Case> {
     cases
 }
 
+pub fn injection_texts() -> Vec<String> {
+    injection_cases().into_iter().map(|c| c.text).collect()
+}
+
 struct Injections {
     cases: Vec<Case>,
 }
